@@ -43,3 +43,14 @@ CLAIMED['C05'] = (
     NOTE_COMMON + 'pysat is absent in this sandbox: a shim (DPLL / z3 -dimacs, models re-checked) stands in for the solver; the solver is '
     'a parameter of the theorem. Python recursion limit not modelled.',
     'Lean 4 proof (template exactness by induction, allocation invariant, rank induction) + regenerated templates + exact CNF correspondence')
+CLAIMED['C16'] = (
+    'DESIGN.md 5/C16',
+    'Theorems (all values, no bound): a number below 2^w written with w bits anywhere in a bit stream (any prefix/suffix, across byte '
+    'boundaries, with padding) is read back exactly and larger numbers are rejected; the binary dictionary reader inverts the writer for '
+    'every dictionary with distinct byte-string keys that fits the length fields, rejects every strict prefix and any trailing byte. '
+    'The circuit codec (word size, dependency-order numbering, token stream, decoder) is modelled in Lean and compared byte for byte '
+    'with the code on every run (conforming and non-conforming circuits, corrupted and truncated streams); the implementation round '
+    'trip (counts, truth table, per-gate tables) is checked on every generated circuit.',
+    NOTE_COMMON + 'The circuit-level theorem decode(encode c) ~ c is not proved yet (partial): that clause currently rests on the '
+    'byte-exact correspondence plus the search oracle. Keys are byte strings in the model (CPython UTF-8 codec trusted).',
+    'Lean 4 proof (bit/byte packing induction, length-prefixed parser inversion + prefix monotonicity) + regenerated codec tables + byte-exact correspondence')
